@@ -248,6 +248,8 @@ def _constraint_strategy(labels_t, spin, quad):
         "perm": st.integers(0, 1 << 20),
         "arg": st.sampled_from(args),
         "lam": st.sampled_from(LAMS),
+        # number type of the coefficients of P, of lam and of the bounds handed to the library (same values)
+        "ctype": gen.CTYPE,
         "log_trick": st.booleans(),
         "bmode": st.sampled_from(BMODES),
         "bpar": st.tuples(st.integers(0, 3), st.integers(0, 3), st.integers(0, 2)).map(list),
@@ -527,11 +529,16 @@ def run(spec, rec, spin):
         arg_kind = c["arg"]
         if arg_kind in ("QUBO", "QUSO") and any(len(k) > 2 for k in P_terms):
             arg_kind = "PUSO" if spin else "PUBO"
-        P = lib(gen.build, qv, "dict" if arg_kind == "dict" else arg_kind, terms_list, what="build_argument")
+        ctype = c.get("ctype") or "plain"
+        P = lib(gen.build, qv, "dict" if arg_kind == "dict" else arg_kind, gen.wrap_terms(terms_list, ctype),
+                what="build_argument")
+        if ctype != "plain":
+            classes.add("ctype=" + ctype)
         snap = gen.snapshot(P)
 
         before = ref.canon(dict(M), spin)
-        kwargs = {"lam": lam, "bounds": bounds}
+        kwargs = {"lam": gen.wrap_number(lam, ctype),
+                  "bounds": bounds if bounds is None else tuple(gen.wrap_number(b, ctype) for b in bounds)}
         if rel != "eq":
             kwargs["log_trick"] = log
         via_update = bool(c.get("via_update")) and not seen and not M.num_ancillas
